@@ -112,6 +112,17 @@ def execute(c):
                 pts = [(p[0] / S + dx, p[1] / S + dy) for p in c["q"]]
                 poly = G.polygon(pts + [pts[0]], CRS_B if c["crs"] == "other" else CRS_A)
                 out = [list(map(int, i)) for i, _ in gs.tiles_from_geopolygon(poly)]
+                # history: one caller-owned geobox cache shared by several queries (a box query over the polygon's surroundings filled it, then the
+                # same polygon twice).  What a query returns is a function of the query; the cache may only save work.
+                cache = {}
+                pb = poly.to_crs(CRS_A).boundingbox
+                list(gs.tiles(G.BoundingBox(pb.left - tsx / S, pb.bottom - tsy / S, pb.right + tsx / S, pb.top + tsy / S, CRS_A), geobox_cache=cache))
+                warm1 = list(gs.tiles_from_geopolygon(poly, geobox_cache=cache))
+                warm2 = list(gs.tiles_from_geopolygon(poly, geobox_cache=cache))
+                if any(sorted(list(map(int, i)) for i, _ in w) != sorted(out) for w in (warm1, warm2)):
+                    ev["outcome"] = "polygon_query_with_a_shared_geobox_cache_differs"
+                elif any(_gb(gb) != _gb(gs[i]) for i, gb in warm1 + warm2):
+                    ev["outcome"] = "tiles_query_returned_a_geobox_that_is_not_the_tile_of_its_index"
             # observe the footprints of every tile around the query (window from the query extent) and of everything returned
             dirx, diry = (-1 if g["fx"] else 1), (-1 if g["fy"] else 1)
             ixs = sorted(dirx * ((v - g["ox"]) // tsx) for v in (x0, x1))
